@@ -166,6 +166,9 @@ type polSpec struct {
 	Deny      []string `json:"deny"`
 	// Form: how the rule entries are written in the Hookaidofile ("" = one quoted directive per entry; see dslRules)
 	Form string `json:"form,omitempty"`
+	// Block: how the egress block itself is written (nil = all three switches written as on/off before the rules);
+	// the three booleans above are then the EFFECTIVE values: what is written, else the documented default (forms_test.go)
+	Block *blockForm `json:"block,omitempty"`
 
 	allowClass, denyClass string
 }
